@@ -363,6 +363,12 @@ def r09_6_shared(repo: Repo, rep: Report):
     r20_1_fork_copies(repo, rep)
     r20_8_no_aliasing_assignment(repo, rep)
     r14_1_prank_consumption(repo, rep)
+    # "the call fails when the sender's balance is insufficient": the failing branch is kept unless the solver proves
+    # the balance sufficient (shared with C02 R02.1)
+    from hsa.rules.verdicts import check_verdict_sites
+
+    rep.rule("R02.1", "insufficient-funds branch kept unless proved infeasible (shared with C02)")
+    check_verdict_sites(repo, rep, "R02.1", modules=("sevm",), only_functions={"sevm.SEVM.handle_insufficient_fund_case", "sevm.SEVM.transfer_value"})
 
 
 RULES = [r09_1_snapshot_restore, r09_2_message_construction, r09_3_static_context, r09_4_value_transfer, r09_5_returndata, r09_6_shared]
